@@ -3,8 +3,7 @@
 C-tie: the public functions scared.aes.key_schedule / key_expansion / inv_key_schedule and scared.des.key_schedule /
 get_master_key are run on FIPS and random keys; what they return is compared inside Coq (`=` on bytes) with the SPECS
 (Spec/Fips197.v KeyExpansion, Spec/DesKeySpec.v PC-1 / shifts / PC-2) and with the impl-model of Model/KeySchedule.v over the
-regenerated constants.  Every byte string travels as a short list of primitive 63-bit integers (7 bytes each): such literals parse about ten times
-faster than lists of byte numerals.
+regenerated constants.  Byte strings travel as lists of byte numerals.
 """
 import numpy as np
 
@@ -23,7 +22,7 @@ TRUSTED_BASE = [
     '(PC-1, PC-2, left shifts as printed in FIPS 46-3, anchored by a known key schedule)',
     'translator tools/translate/tr_keysched.py (SBOX, RCON, DES tables; statement-by-statement template comparison of the nine '
     'key-schedule functions; literals re-compared with the live objects)',
-    'correspondence harness tools/props/C10.py: byte strings packed 7 bytes per primitive 63-bit integer (decoded in Coq by Model.KeySchedule.unpack), numpy C-order rows',
+    'correspondence harness tools/props/C10.py: byte strings as lists of byte numerals, numpy C-order rows',
     'modelled, not verified: numpy fancy indexing / roll / bitwise_xor / reshape semantics (held by the correspondence check)',
 ]
 ASSUMPTIONS = [
@@ -34,7 +33,7 @@ ASSUMPTIONS = [
     'DES encryption itself is a Section variable in the get_master_key theorems (its conformance is property C06)',
 ]
 
-HDR = 'From Coq Require Import Uint63.\nFrom ScaredV Require Import Model.KeySchedule.'
+HDR = 'From ScaredV Require Import Model.KeySchedule.'
 
 FIPS_KEYS = {
     16: ['2b7e151628aed2a6abf7158809cf4f3c', '000102030405060708090a0b0c0d0e0f'],
@@ -63,11 +62,8 @@ def rows_hex(a, width):
 
 
 def hx(h):
-    """byte string (hex) -> Coq literal of type Model.KeySchedule.packed: primitive 63-bit integers holding 7 bytes each, most
-    significant byte first, the last one padded with zero bytes on the right"""
-    b = bytes.fromhex(h)
-    b += bytes((-len(b)) % 7)
-    return '[' + '; '.join(f'{int.from_bytes(b[i:i + 7], "big")}%uint63' for i in range(0, len(b), 7)) + ']'
+    """byte string (hex) -> Coq literal of type Model.KeySchedule.packed (= list N)"""
+    return '[' + '; '.join(str(b) for b in bytes.fromhex(h)) + ']%N'
 
 
 def opt_nat(v):
@@ -86,7 +82,7 @@ class AesExpansionKind(Kind):
     case_type = 'aes_ke_case'
     check_fn = 'aes_ke_check'
     explain_fn = 'aes_ke_expected'
-    shard = 500
+    shard = 530
     rule = ('scared.aes.key_expansion(window, col_in, col_out): window = columns col_in..col_in+Nk-1 of the schedule of a master key '
             '(checked against FIPS-197 inside Coq); ALL (col_in <= total-Nk, col_out <= total) pairs for the FIPS-197 Appendix A key '
             'of each size, sampled pairs for random keys, 1-D keys and batches of 1..4 keys, col_out omitted, refused calls; '
@@ -501,3 +497,12 @@ class DesCandidatesKind(Kind):
 
 
 KINDS = [AesExpansionKind(), AesScheduleKind(), AesInvKind(), DesScheduleKind(), DesMasterKeyKind(), DesCandidatesKind()]
+
+
+def coverage_extra():
+    """The bridge to the FIPS 46-3 spec of C06 (Spec/Fips46.v) lives in its own file so that C10 does not break when that spec is being
+    edited; whether it currently checks is recorded in the evidence (not an obligation of C10)."""
+    from lib import core
+    ok, log_, secs, cmd = core.coq_make(['theories/Proofs/KeyScheduleFips46.vo'], timeout=300)
+    return {'bridge_to_Fips46': {'theorem': 'ScaredV.Proofs.KeyScheduleFips46.des_ks_spec_is_fips46', 'checks': bool(ok),
+                                 'detail': '' if ok else log_[-600:]}}
